@@ -105,6 +105,12 @@ func newProvider(kind string) restful.CompressorProvider {
 		return restful.NewBoundedCachedCompressors(1, 1)
 	case "bounded2":
 		return restful.NewBoundedCachedCompressors(2, 2)
+	case "bounded21": // more writers than readers
+		return restful.NewBoundedCachedCompressors(2, 1)
+	case "bounded10":
+		return restful.NewBoundedCachedCompressors(1, 0)
+	case "bounded12": // more readers than writers
+		return restful.NewBoundedCachedCompressors(1, 2)
 	}
 	return restful.NewSyncPoolCompessors()
 }
